@@ -231,6 +231,14 @@ func init() {
 		rt := fn.Signature.Results().At(0).Type()
 		return []Value{e.symValue(rt, argStr(e, a[0]))}
 	}
+	// verifFreshChain: a context over a second, empty chain state (same block context as the argument)
+	intrinsics["verifFreshChain"] = func(e *Exec, fn *ssa.Function, a []Value) []Value {
+		c := ctxOf(e, a[0]).copy()
+		c.St = newState()
+		c.St.Empty = true
+		c.Em = &EventMgr{}
+		return []Value{c}
+	}
 	intrinsics["verifNote"] = func(e *Exec, fn *ssa.Function, a []Value) []Value { return nil }
 	intrinsics["verifDescribe"] = func(e *Exec, fn *ssa.Function, a []Value) []Value {
 		fmt.Printf("DESCRIBE %s: %s\n", argStr(e, a[0]), describe(a[1]))
